@@ -14,7 +14,10 @@ from sismic.exceptions import (CodeEvaluationError, ConflictingTransitionsError,
 from sismic.interpreter import Interpreter
 from sismic.model import (CompoundState, DeepHistoryState, Event, FinalState, InternalEvent, MetaEvent,
                           OrthogonalState, ShallowHistoryState, BasicState, Transition)
-from sismic.clock import SimulatedClock
+from sismic.clock import Clock, SimulatedClock
+from common import Timeout, time_limit
+
+CALL_LIMIT_S = 20     # one call of execute_once / queue (a macro step of a generated chart takes milliseconds)
 
 ALPHABET = ['e0', 'e1', 'e2']
 
@@ -359,6 +362,26 @@ def make_recording_interpreter(holder):
     return RecInterp
 
 
+class Resource:
+    """A context value as client code puts there: it can be copied one level deep (copy.copy) but not deep-copied or
+    pickled (it holds a lock).  The library documents that __old__ is a shallow snapshot."""
+
+    def __init__(self):
+        import threading
+        self.lock = threading.Lock()
+        self.n = 0
+
+
+class Mailbox:
+    """A bound target given as the bound method of an object that only the binding keeps alive."""
+
+    def __init__(self, log):
+        self.log = log
+
+    def deliver(self, e):
+        self.log.append(ev_value(e))
+
+
 class EqCallable:
     """A bound target.  All instances compare equal (as two bound methods of one object do), each has its own log: the
     interpreter must tell its listeners apart by identity, not by the equality of what they wrap."""
@@ -376,11 +399,38 @@ class EqCallable:
         return 7
 
 
+class LogicalClock(Clock):
+    """A clock on which every reading made while `armed` (= during one call of the interpreter) returns the next tick:
+    a second reading of the clock inside one step is observable, and lasting.  Unarmed readings (the harness's own)
+    return the current value and change nothing."""
+
+    def __init__(self):
+        self._t = 0
+        self.armed = False
+        self.reads = 0
+
+    @property
+    def time(self):
+        if not self.armed:
+            return self._t
+        self.reads += 1
+        v = self._t
+        self._t += 1
+        return v
+
+    @time.setter
+    def time(self, v):
+        if v < self._t - (1 if self.armed else 0):
+            raise ValueError('Time must be monotonic')
+        self._t = max(v, self._t) if self.armed else v
+
+
 class Scenario:
     """One monitored interpreter with its listeners, driven operation by operation."""
 
     def __init__(self, sc, ignore_contract=False, initial_context=None, props=(), n_rec=1,
-                 bound_callables=0, bound_charts=(), listener_order=None, fuel=40, plain=False, picklable=False):
+                 bound_callables=0, bound_charts=(), listener_order=None, fuel=40, plain=False, picklable=False,
+                 logical_clock=False):
         """plain=True: the stock Interpreter and PythonEvaluator, no recording and no probing (the harness then reads
         nothing but states and outcomes, so it cannot disturb anything the implementation may remember between calls)."""
         self.rec = Recorder()
@@ -388,7 +438,7 @@ class Scenario:
             GlobalRec.current = self.rec
         self.klass = PythonEvaluator if plain else (RecEvalG if picklable else make_recording_evaluator(self.rec))
         self.sc = sc
-        self.clock = SimulatedClock()
+        self.clock = LogicalClock() if logical_clock else SimulatedClock()
         self.sel_holder = {}
         self.interp = (Interpreter if (plain or picklable) else make_recording_interpreter(self.sel_holder))(
             sc, evaluator_klass=self.klass, initial_context=initial_context,
@@ -449,8 +499,17 @@ class Scenario:
             obj = fn
         elif kind == 'callable':
             self.calls[lid] = []
-            fn = EqCallable(self.calls[lid])
+            # targets of several kinds: a callable object; a plain function; the bound method of an object that nothing
+            # else refers to (a client writes `interp.bind(Mailbox(log).deliver)`)
+            k3 = lid % 3
+            if k3 == 0:
+                fn = EqCallable(self.calls[lid])
+            elif k3 == 1:
+                fn = (lambda log: (lambda e: log.append(ev_value(e))))(self.calls[lid])
+            else:
+                fn = Mailbox(self.calls[lid]).deliver
             obj = self.interp.bind(fn)
+            del fn
         elif kind == 'interp':
             bi = Interpreter(arg, evaluator_klass=self.klass, clock=SimulatedClock())
             self.rec.interp_id(bi)
@@ -536,13 +595,25 @@ class Scenario:
         try:
             if op[0] == 'exec':
                 now = self.clock.time
-                r = self.interp.execute_once()
+                if isinstance(self.clock, LogicalClock):
+                    self.clock.armed, self.clock.reads = True, 0
+                try:
+                    with time_limit(CALL_LIMIT_S):
+                        r = self.interp.execute_once()
+                finally:
+                    if isinstance(self.clock, LogicalClock):
+                        self.clock.armed = False
                 out = ('macro', macro_value(self.interp, r))
                 op = ('exec', now)
             elif op[0] == 'queue':
-                self.interp.queue(op[1])
+                with time_limit(CALL_LIMIT_S):
+                    self.interp.queue(op[1])
                 out = ('none',)
                 op = ('queue', ev_value(op[1]))
+        except Timeout:
+            if op[0] == 'exec':
+                op = ('exec', now)
+            out = ('err', ('EOther', 'the call did not return within %d s' % CALL_LIMIT_S))
         except Exception as e:  # noqa
             if op[0] == 'exec':
                 op = ('exec', now)
